@@ -67,8 +67,13 @@ def _call(args):
     modname, case = args
     import importlib
     mod = importlib.import_module(modname)
+    from . import harness as _h
     try:
         r = mod.run_case(case)
+    except _h.HangAbort as e:       # TLExport itself did not return (watchdog): a finding, the rest of the case is not executed
+        return {"n": len(e.infos), "fails": [{"kind": "execution_does_not_terminate", "sig": {"case": case},
+                                              "detail": f"run() did not return within {_h.RUN_TIMEOUT_S} s in {len(e.infos)} executions of this case "
+                                                        f"(the remaining executions of the case were skipped); first: {e.infos[0]}"}]}
     except BaseException as e:      # a crash of the harness itself: never a finding
         import traceback
         return {"n": 0, "harness_error": f"{type(e).__name__}: {e}\n{traceback.format_exc(limit=8)}", "case": case}
